@@ -50,6 +50,10 @@ func spSnapshot(sp *saml2.SAMLServiceProvider) string {
 	if sp.IDPCertificateStore != nil {
 		roots, _ := sp.IDPCertificateStore.Certificates()
 		for _, r := range roots {
+			if r == nil {
+				b.WriteString("root=<nil>;")
+				continue
+			}
 			fmt.Fprintf(&b, "root=%x;", mon.Hash64(string(r.Raw)))
 		}
 	}
@@ -671,7 +675,7 @@ func runC17(c *mon.Ctx) {
 			cur := w.IdP[0]
 			future := sim.Mint(sim.K("idp2"), now.AddDate(1, 0, 0), now.AddDate(2, 0, 0), 31)
 			expired := sim.Mint(sim.K("idp4"), now.AddDate(-2, 0, 0), now.AddDate(-1, 0, 0), 32)
-			orders := [][]*sim.Cert{{future, cur}, {expired, cur}, {future, expired, cur}, {cur, future}}
+			orders := [][]*sim.Cert{{future, cur}, {expired, cur}, {future, expired, cur}, {cur, future}, {cur, cur}, {cur, cur, future}, {expired, expired, cur}}
 			roots := certsOf(orders[r.IntN(len(orders))])
 			store := &dsig.MemoryX509CertificateStore{Roots: roots}
 			sp.IDPCertificateStore = store
